@@ -918,6 +918,7 @@ class PlainLegacy:
 def _pseudo_child(_job):
     import sys
     import types
+    import typing
     import datetime
     warnings.simplefilter("ignore")
     import typelib
@@ -938,6 +939,8 @@ def _pseudo_child(_job):
             except Exception as e:  # noqa: BLE001
                 return ("err", type(e).__name__)
         a, b = run(f_inst), run(f_map)
+        if "NameError" in (a[1], b[1]):
+            raise RuntimeError(f"harness: {label}: NameError in the probe itself")
         if a != b:
             bad.append([label, f"from the instance: {a[1][:160]}", f"from the equal mapping: {b[1][:160]}"])
     same("unmarshal(User, <LegacyUser instance>)", lambda: typelib.unmarshal(U, inst), lambda: typelib.unmarshal(U, mapping))
@@ -950,6 +953,102 @@ def _pseudo_child(_job):
     same("unmarshal(User-like dict[str, str], <plain annotated instance with a ClassVar>)",
          lambda: typelib.unmarshal(typing.Dict[str, str], pinst), lambda: typelib.unmarshal(typing.Dict[str, str], pmap))
     return bad
+
+
+# ---- fields inherited from a base class of ANOTHER module: their (postponed) annotations mean what they mean in the base's module
+XMOD_V1 = """
+from __future__ import annotations
+import dataclasses, decimal, typing
+@dataclasses.dataclass
+class Money:
+    amount: decimal.Decimal
+    currency: str = "EUR"
+@dataclasses.dataclass
+class Invoice:
+    total: Money
+    lines: typing.List[Money]
+class Shipment:
+    fee: Money
+    def __init__(self, fee):
+        self.fee = fee
+    def __eq__(self, o):
+        return type(o) is type(self) and vars(o) == vars(self)
+"""
+XMOD_V2 = """
+from __future__ import annotations
+import dataclasses, typing
+import vm_c05_ledger_v1
+@dataclasses.dataclass
+class Money:
+    amount: int
+    currency: str = "USD"
+@dataclasses.dataclass
+class Invoice(vm_c05_ledger_v1.Invoice):
+    tip: Money = None
+    note: str = ""
+class Shipment(vm_c05_ledger_v1.Shipment):
+    tag: str
+    def __init__(self, fee, tag="t"):
+        super().__init__(fee)
+        self.tag = tag
+"""
+
+
+def _xmod_child(_job):
+    import sys
+    import types
+    import typing
+    warnings.simplefilter("ignore")
+    import typelib
+    mods = {}
+    for name, src in (("vm_c05_ledger_v1", XMOD_V1), ("vm_c05_ledger_v2", XMOD_V2)):
+        m = types.ModuleType(name)
+        sys.modules[name] = m
+        exec(compile(src, name + ".py", "exec"), m.__dict__)
+        mods[name] = m
+    v1, v2 = mods["vm_c05_ledger_v1"], mods["vm_c05_ledger_v2"]
+    bad = []
+    hints = typing.get_type_hints(v2.Invoice)          # Python's own reading: total / lines name v1.Money, tip names v2.Money
+    if hints["total"] is not v1.Money or hints["tip"] is not v2.Money:
+        return ["harness: unexpected hints " + repr(hints)]
+    wire = {"total": {"amount": "12.50"}, "lines": [{"amount": "0.25"}], "tip": {"amount": "3"}, "note": "n"}
+    try:
+        got = typelib.unmarshal(v2.Invoice, wire)
+        want = v2.Invoice(total=typelib.unmarshal(v1.Money, wire["total"]), lines=[typelib.unmarshal(v1.Money, x) for x in wire["lines"]],
+                          tip=typelib.unmarshal(v2.Money, wire["tip"]), note="n")
+        if got != want or type(got.total) is not v1.Money or type(got.tip) is not v2.Money:
+            bad.append(f"unmarshal(v2.Invoice, wire) = {got!r}; rebuilt from the member routines: {want!r}"[:400])
+    except Exception as e:  # noqa: BLE001
+        bad.append(f"unmarshal(v2.Invoice, wire) raised {type(e).__name__}: {e}"[:200])
+    try:
+        import decimal
+        inst = v2.Invoice(total=v1.Money(decimal.Decimal("12.50")), lines=[v1.Money(decimal.Decimal("0.25"))], tip=v2.Money(3), note="n")
+        got = typelib.marshal(inst)
+        want = {"total": typelib.marshal(inst.total), "lines": [typelib.marshal(x) for x in inst.lines], "tip": typelib.marshal(inst.tip), "note": "n"}
+        if got != want:
+            bad.append(f"marshal(v2.Invoice(...)) = {got!r}; rebuilt from the member routines: {want!r}"[:400])
+    except Exception as e:  # noqa: BLE001
+        bad.append(f"marshal(v2.Invoice(...)) raised {type(e).__name__}: {e}"[:200])
+    try:
+        got = typelib.unmarshal(v2.Shipment, {"fee": {"amount": "4.5"}, "tag": 7})
+        if type(got.fee) is not v1.Money or got.fee != typelib.unmarshal(v1.Money, {"amount": "4.5"}) or got.tag != "7":
+            bad.append(f"unmarshal(v2.Shipment, ...) = fee {got.fee!r}, tag {got.tag!r}: the inherited field is a v1.Money"[:300])
+    except Exception as e:  # noqa: BLE001
+        bad.append(f"unmarshal(v2.Shipment, ...) raised {type(e).__name__}: {e}"[:200])
+    return bad
+
+
+def cross_module_inheritance(res):
+    bad = iso.map_isolated(_xmod_child, [None], timeout=60.0)[0]
+    if not isinstance(bad, list):
+        raise RuntimeError(f"harness: cross-module inheritance probe failed: {bad}")
+    res.case({"family": "fields-inherited-from-another-module"}, True)
+    for b in bad:
+        if b.startswith("harness:"):
+            raise RuntimeError(b)
+        res.failures.append({"what": b, "input": {"xmod": True}})
+    if not bad:
+        res.count("oracle:inherited-fields-converted-by-the-base-module's-types", 3)
 
 
 def pseudo_field_sources(res):
@@ -980,6 +1079,7 @@ def explore(ctx):
     res.extra["trees_validated"] = res.programs
     res.extra["module_sets"] = n
     pseudo_field_sources(res)
+    cross_module_inheritance(res)
     return res
 
 
@@ -1005,6 +1105,10 @@ def witness(fid):
 
 def replay(failure):
     inp = failure["input"]
+    if "xmod" in inp:
+        bad = iso.map_isolated(_xmod_child, [None], timeout=60.0)[0]
+        print(json.dumps({"differences": bad}, indent=1))
+        return bool(bad)
     if "pseudo_source" in inp:
         bad = iso.map_isolated(_pseudo_child, [None], timeout=60.0)[0]
         print(json.dumps({"sources converting differently from the equal mapping": bad}, indent=1))
